@@ -66,7 +66,7 @@ pub fn run(ctx: &Ctx) -> i32 {
     );
     rep.assume("reproducibility is compared only for programs in which no function has two returns (the choice of the exit among several returns follows hash order; that is C10/C11 material)");
     let per_shard = ctx.tier.pick(30, 2000);
-    let acc = run_sharded(ctx.jobs, |shard| {
+    let acc = run_sharded(ctx, |shard| {
         let mut acc = Acc::new();
         for k in 0..per_shard {
             let mut rng = Rng::derive(ctx.seed, 12_000 + shard as u64, k as u64);
@@ -75,6 +75,7 @@ pub fn run(ctx: &Ctx) -> i32 {
                 0 => (Profile::conforming(), Some(Inject::JumpToFunction)),
                 1 => (Profile::conforming(), Some(Inject::FallThrough)),
                 2 | 3 => (Profile::conforming(), None),
+                4 | 5 => (Profile::wild_static(), None),
                 _ => (Profile::wild(), None),
             };
             let c = make_case(&mut rng, &prof, inject, Some(&Style::plain()));
@@ -83,6 +84,7 @@ pub fn run(ctx: &Ctx) -> i32 {
                 0 => "jump-into-function",
                 1 => "fall-through-into-function",
                 2 | 3 => "conforming",
+                4 | 5 => "wild-branches-into-functions",
                 _ => "wild",
             };
             let text = c.printed.text.clone();
